@@ -106,6 +106,16 @@ pub fn substitute_plane(rng: &mut Rng) -> Option<(P2, u8)> {
     Some(([p.q[0] + eps * g.cos(), p.q[1] + eps * g.sin()], p.face))
 }
 
+/// a located jump of the inverse projection itself: (planar location, face, size of the jump)
+pub fn pick_inverse_locus(rng: &mut Rng) -> Option<(P2, u8, f64)> {
+    let l = active()?;
+    let p = &l.points[rng.below(l.points.len() as u64) as usize];
+    if p.face >= 12 || p.map != "inverse" {
+        return None;
+    }
+    Some((p.q, p.face, p.jump))
+}
+
 pub fn take_hint_res(rng: &mut Rng) -> Option<i32> {
     let jump = HINT.with(|h| h.take())?;
     Some(matching_resolution(rng, jump))
